@@ -254,6 +254,8 @@ class SymEval:
         self._alts: dict = {}  # gated constant returned by an inlined helper -> its alternatives ((extra path literals, value), ...)
         self._try_depth: dict = {}  # try id -> inline depth of the frame the try statement belongs to
         self._frame_envs: list = []  # environments of the calling frames while a helper is inlined
+        self._open_stmts: list = []  # statements whose evaluation is in progress (innermost last)
+        self._iter_dirty: dict = {}  # loop id -> a statement has completed in the current symbolic iteration
         self._head_mark: dict = {}  # loop id -> (number of effects recorded when the current iteration's body was entered, loop node, inline depth)
         self._tail_ends: dict = {}  # loop id -> per-path states at the statements from which control falls off the end of the loop body
         self._tail_stack: list = []  # (loop id, ids of tail-position leaf statements, ids of tail-position ifs without else)
@@ -317,7 +319,14 @@ class SymEval:
         provided the enclosing loop's test is not changed by S (it is re-evaluated by the continue) - the shape the iteration rules follow."""
         w = stmts[0]
         lid = self._loops[-1]
-        _, outer, depth = self._head_mark[lid]
+        _, outer, depth, nopen = self._head_mark[lid]
+        # nothing of this iteration may have run yet: no completed statement, and between the loop and here only try statements and (when a helper is
+        # being inlined) the one simple statement whose call is being evaluated - a `continue` re-executes exactly those
+        if self._iter_dirty.get(lid):
+            return stmts
+        between = self._open_stmts[nopen:]  # statements opened after the loop statement itself
+        if any(not isinstance(x, (ast.Try, ast.Assign, ast.AnnAssign, ast.Expr, ast.Return)) for x in between) or sum(1 for x in between if not isinstance(x, ast.Try)) > 1:
+            return stmts
         if not (isinstance(w.test, ast.Constant) and w.test.value is True and not w.orelse and w.body):
             return stmts
         last = w.body[-1]
@@ -348,6 +357,16 @@ class SymEval:
         self._tail_ends.setdefault(self._loops[-1], []).append(snap)
 
     def stmt(self, s, st: State) -> State:
+        self._open_stmts.append(s)
+        try:
+            return self._stmt_impl(s, st)
+        finally:
+            self._open_stmts.pop()
+            # a completed statement (other than a try and a docstring) means the current iteration of the innermost loop is no longer at its very start
+            if self._loops and not isinstance(s, ast.Try) and not (isinstance(s, ast.Expr) and isinstance(s.value, ast.Constant)):
+                self._iter_dirty[self._loops[-1]] = True
+
+    def _stmt_impl(self, s, st: State) -> State:
         self._stmt = s
         if self._trys and may_raise_stmt(s):
             depth = len(self._inline_stack)
@@ -635,7 +654,8 @@ class SymEval:
         info["pre"] = pre.env
         self._loops.append(lid)
         self._tail_stack.append((lid,) + _tail_positions(s.body))
-        self._head_mark[lid] = (len(self.effects), getattr(s, "_sa_from_while", s), len(self._inline_stack))
+        self._head_mark[lid] = (len(self.effects), getattr(s, "_sa_from_while", s), len(self._inline_stack), len(self._open_stmts))
+        self._iter_dirty[lid] = False
         if isinstance(s, ast.While):
             c = self.expr(s.test, st)
             info["test"] = c
